@@ -411,8 +411,12 @@ def check_c06(ctx):
                 ops.append({"op": "fail", "t": rnd.randint(1, 3)})
             elif x < 0.6:
                 ops.append({"op": "succ", "t": rnd.randint(1, 3)})
-            elif x < 0.97:
+            elif x < 0.93:
                 ops.append({"op": "probe", "ok": rnd.random() < 0.6})
+            elif x < 0.97:
+                # the health-check configuration is reloaded while a checker may be running
+                ops.append({"op": "conf", "succNum": rnd.randint(1, 4)})
+                ops += [{"op": "probe", "ok": True}] * rnd.randint(2, 6)
             else:
                 ops.append({"op": "release"})
         cases.append({"failNum": fn, "succNum": sn, "ops": ops})
